@@ -35,6 +35,18 @@ HIST_RULE = ("message histories: 1200 (thorough 30000) random histories of 2..8 
              "composite and a tagged composite nesting a positional one")
 
 PROPS = {
+    "C17": {
+        "topics": ["specjson"],
+        "nontrivial": lambda c, i: i.startswith("ok"),
+        "rule": "500 (thorough 10000) generated message specs, 4 of 5 drawn from the exportable vocabulary (String/Numeric/Binary leaves, the 27 named prefixes, 7 encodings, "
+                "Left/Right/no padding, StringsByInt/StringsByHex, nested tagged / positional / bitmapped composites): export; the exported document re-imported; 6 mutants of each "
+                "document (dropped / renamed keys, wrong JSON types, null members, unknown names, empty objects, negative lengths) imported; plus hand-written minimal documents; "
+                "the oracle checks spec equality, byte-identical re-export, determinism, identical pack/unpack behaviour under both specs, and NewMessage+Pack on every returned spec; "
+                "non-trivial = distinct case on which the library returns a document / a spec",
+        "trusted_base": MODEL_TB + ["translator: Gen/BuilderTables.v dumps the live name maps of specs/builder.go; harness/topic_specjson.go turns library spec objects back into terms by reflection",
+                                     "encoding/json's parser (documents reach the model as parsed trees)"],
+        "assumptions": ["spec documents nested at most 8 levels deep (the model's fuel)", "key matching in encoding/json is case-insensitive: generated documents use the exact key names"],
+    },
     "C18": {
         "topics": ["leak"],
         "nontrivial": lambda c, i: "c18" in c or (c.startswith("(desc") and len(c) > 30),
